@@ -176,15 +176,21 @@ Fixpoint merge_exts (st : Z) (acc : extent) (l : list extent) : list extent :=
       else merge_exts st (as_, ee, merge_response [am; em]) l'
   end.
 
-Definition handle_hit (f : downstream) (sids : list Z) (rs re st : Z) (exts : list extent) (matching : bool)
-  : matrix * option (list extent) :=
+(* [stor a b]: may the response fetched for the sub-request [a, b] be stored (shouldCacheResponse:
+   no Cache-Control: no-store header, no @ modifier beyond the request's end)? Every fetched response
+   goes into the ANSWER; only the storable ones become extents. The order of the two statements in
+   the loop is read from the source (Gen/C42.v [answer_appended_before_store_test]) and followed. *)
+Definition handle_hit (f : downstream) (sids : list Z) (stor : Z -> Z -> bool) (rs re st : Z)
+  (exts : list extent) (matching : bool) : matrix * option (list extent) :=
   let '(reqs, cached) := partition rs re (if matching then st else 0) exts in
   match reqs with
   | [] => (merge_response cached, None)
   | _ =>
       let rr := map (fun ab => (fst ab, snd ab, eval f sids (fst ab) (snd ab) st)) reqs in
-      let responses := cached ++ map snd rr in
-      match sort_by ext_lt (exts ++ rr) with
+      let storable := filter (fun x : extent => stor (fst (fst x)) (snd (fst x))) rr in
+      let answered := if answer_appended_before_store_test then rr else storable in
+      let responses := cached ++ map snd answered in
+      match sort_by ext_lt (exts ++ storable) with
       | [] => (merge_response responses, None)
       | e0 :: es => (merge_response responses, Some (merge_exts st e0 es))
       end
@@ -222,53 +228,59 @@ Fixpoint first_found (ks : list ckey) (c : cache) : option (list extent) :=
   | k :: ks' => match lookup k c with Some v => Some v | None => first_found ks' c end
   end.
 
-(* resultsCache.Do for a cacheable request that is old enough (no freshness cut) *)
-Definition do_cache (f : downstream) (sids : list Z) (split : Z) (c : cache) (rs re st : Z) : matrix * cache :=
+(* resultsCache.Do for a cacheable request that is old enough (no freshness cut).
+   [sto re a b]: is the response to the downstream request [a, b], fetched while serving a request
+   that ends at [re], storable? *)
+Definition do_cache (f : downstream) (sids : list Z) (sto : Z -> Z -> Z -> bool) (split : Z) (c : cache) (rs re st : Z)
+  : matrix * cache :=
   let w := Z.quot rs split in
   let key := (st, w) in
   match lookup key c with
   | Some exts =>
-      let '(resp, wb) := handle_hit f sids rs re st exts false in
+      let '(resp, wb) := handle_hit f sids (sto re) rs re st exts false in
       (resp, match wb with Some e => store key e c | None => c end)
   | None =>
       match first_found (map (fun a => (a, w)) (alt_steps rs st)) c with
-      | Some exts => (fst (handle_hit f sids rs re st exts true), c)
-      | None => let r := eval f sids rs re st in (r, store key [(rs, re, r)] c)
+      | Some exts => (fst (handle_hit f sids (sto re) rs re st exts true), c)
+      | None =>
+          (* handleMiss: the response is returned; it becomes an extent only if storable *)
+          let r := eval f sids rs re st in
+          (r, if sto re rs re then store key [(rs, re, r)] c else c)
       end
   end.
 
 (* the sub-requests of the split middleware, one after the other (parallelism 1) *)
-Fixpoint do_subs (f : downstream) (sids : list Z) (split : Z) (c : cache) (subs : list (Z * Z)) (st : Z)
+Fixpoint do_subs (f : downstream) (sids : list Z) (sto : Z -> Z -> Z -> bool) (split : Z) (c : cache) (subs : list (Z * Z)) (st : Z)
   : list matrix * cache :=
   match subs with
   | [] => ([], c)
   | (a, b) :: subs' =>
-      let '(r, c1) := do_cache f sids split c a b st in
-      let '(rs, c2) := do_subs f sids split c1 subs' st in
+      let '(r, c1) := do_cache f sids sto split c a b st in
+      let '(rs, c2) := do_subs f sids sto split c1 subs' st in
       (r :: rs, c2)
   end.
 
 (* step-align -> [split-by-interval ->] results cache *)
-Definition do_query (f : downstream) (sids : list Z) (split : Z) (use_split : bool) (c : cache) (q : Z * Z * Z)
+Definition do_query (f : downstream) (sids : list Z) (sto : Z -> Z -> Z -> bool) (split : Z) (use_split : bool) (c : cache) (q : Z * Z * Z)
   : option (matrix * cache) :=
   let '(s0, e0, st) := q in
   let '(s, e) := step_align s0 e0 st in
   if use_split then
     match split_query s e st (split * ns_per_ms) with
     | None => None
-    | Some subs => let '(rs, c') := do_subs f sids split c subs st in Some (merge_response rs, c')
+    | Some subs => let '(rs, c') := do_subs f sids sto split c subs st in Some (merge_response rs, c')
     end
-  else Some (do_cache f sids split c s e st).
+  else Some (do_cache f sids sto split c s e st).
 
-Fixpoint history (f : downstream) (sids : list Z) (split : Z) (use_split : bool) (c : cache) (qs : list (Z * Z * Z))
+Fixpoint history (f : downstream) (sids : list Z) (sto : Z -> Z -> Z -> bool) (split : Z) (use_split : bool) (c : cache) (qs : list (Z * Z * Z))
   : option (list matrix * cache) :=
   match qs with
   | [] => Some ([], c)
   | q :: qs' =>
-      match do_query f sids split use_split c q with
+      match do_query f sids sto split use_split c q with
       | None => None
       | Some (r, c1) =>
-          match history f sids split use_split c1 qs' with
+          match history f sids sto split use_split c1 qs' with
           | None => None
           | Some (rs, c2) => Some (r :: rs, c2)
           end
@@ -301,13 +313,22 @@ Definition cache_eqb : cache -> cache -> bool :=
 
 (* ---- cases: a history of queries on the real middleware chain ---- *)
 Inductive case :=
-| CHist (split_ms : Z) (use_split : bool) (series : list series_desc) (queries : list (Z * Z * Z))
+| CHist (split_ms : Z) (use_split : bool) (series : list series_desc)
+        (nostore : list (Z * Z))   (* the downstream answers Cache-Control: no-store when the request starts in one of these intervals *)
+        (at_ts : option Z)         (* the query is `m @ <ts>` *)
+        (queries : list (Z * Z * Z))
         (responses : list matrix) (final_cache : cache).
+
+(* shouldCacheResponse for the scripted downstream *)
+Definition sto_of (nostore : list (Z * Z)) (at_ts : option Z) : Z -> Z -> Z -> bool :=
+  fun re a _ =>
+    (match at_ts with Some t => t <=? re | None => true end)
+    && negb (existsb (fun iv => (fst iv <=? a) && (a <=? snd iv)) nostore).
 
 Definition corr_ok (c : case) : bool :=
   match c with
-  | CHist split us d qs resps fc =>
-      match history (f_of d) (map fst d) split us [] qs with
+  | CHist split us d ns atm qs resps fc =>
+      match history (f_of d) (map fst d) (sto_of ns atm) split us [] qs with
       | Some (rs, c') => list_eqb matrix_eqb rs resps && cache_eqb c' fc
       | None => false
       end
@@ -321,6 +342,6 @@ Definition direct (f : downstream) (sids : list Z) (q : Z * Z * Z) : matrix :=
 
 Definition pred_ok (c : case) : bool :=
   match c with
-  | CHist split us d qs resps _ =>
+  | CHist split us d _ _ qs resps _ =>
       list_eqb matrix_eqb resps (map (direct (f_of d) (map fst d)) qs)
   end.
